@@ -182,7 +182,7 @@ func mutants(p string, rng *rand.Rand, k int) []string {
 	return out
 }
 
-var nameAlphabet = []string{"", "a", "b", "0", "1", "01", "10", "~", "/", "~0", "~1", "~01", "a/b", "m~n", "%", "%25", "%2F", "-", " ", "#", "é", " ", "\"", "\\", "a b", "+1", "00", "k"}
+var nameAlphabet = []string{"", "a", "b", "0", "1", "01", "10", "~", "/", "~0", "~1", "~01", "a/b", "m~n", "%", "%25", "%2F", "-", " ", "#", "é", " ", "\"", "\\", "a b", "+1", "00", "k", "a+b", "x=y", "a&b", "p;q", "c:d", "e@f", "g,h", "i.j", "(k)", "l*m", "n!o", "$"}
 
 func randomDoc(rng *rand.Rand, depth int) Doc {
 	if depth == 0 || rng.IntN(4) == 0 {
@@ -233,7 +233,7 @@ func fragment(p string, rng *rand.Rand) string {
 	b.WriteByte('#')
 	for i := 0; i < len(p); i++ {
 		c := p[i]
-		safe := c >= 'a' && c <= 'z' || c >= '0' && c <= '9' || c == '/' || c == '~' || c == '-'
+		safe := c >= 'a' && c <= 'z' || c >= '0' && c <= '9' || c == '/' || c == '~' || c == '-' || c == '+' || c == '=' || c == '!' || c == '$' || c == '&' || c == '(' || c == ')' || c == '*' || c == ',' || c == ';' || c == ':' || c == '@' || c == '.' || c == '_'
 		if safe && rng.IntN(4) > 0 {
 			b.WriteByte(c)
 		} else if rng.IntN(2) == 0 {
